@@ -2169,3 +2169,89 @@ pub mod builderfx {
         pub fn finish(self) -> Store { let _ends = self.ends; Store { content: Vec::new(), ends: Vec::new() } }
     }
 }
+
+// ---------------------------------------------------------------- R-DIV (field with a zero writer)
+pub mod divfield {
+    use super::*;
+    pub struct Model { pub total: u32, pub table: Vec<u8> }
+    impl Model {
+        pub fn from_table(freqs: &[u32; 4]) -> Model {
+            let sum: u32 = freqs.iter().sum();
+            if sum == 0 {
+                return Model { total: 0, table: Vec::new() };
+            }
+            Model { total: 4096, table: vec![0u8; 4096] }
+        }
+        pub fn bad_decode_step(&self, state: u64) -> Result<usize> {
+            let slot = (state % self.total as u64) as usize;
+            if slot >= self.table.len() {
+                return Err(ZiporaError("slot"));
+            }
+            Ok(self.table[slot] as usize)
+        }
+        pub fn ok_decode_step(&self, state: u64) -> Result<usize> {
+            if self.total == 0 {
+                return Err(ZiporaError("empty model"));
+            }
+            let slot = (state % self.total as u64) as usize;
+            if slot >= self.table.len() {
+                return Err(ZiporaError("slot"));
+            }
+            Ok(self.table[slot] as usize)
+        }
+    }
+}
+
+// ---------------------------------------------------------------- R-RECURSE
+pub mod recfx2 {
+    use super::*;
+    pub fn bad_decode(data: &[u8]) -> Result<usize> {
+        if data.len() < 2 {
+            return Err(ZiporaError("short"));
+        }
+        if data[0] == 0xF5 {
+            return bad_decode_blocks(&data[1..]);
+        }
+        Ok(data[1] as usize)
+    }
+    fn bad_decode_blocks(data: &[u8]) -> Result<usize> {
+        bad_decode(data)
+    }
+    pub fn ok_decode(data: &[u8], depth: u32) -> Result<usize> {
+        if data.len() < 2 {
+            return Err(ZiporaError("short"));
+        }
+        if data[0] == 0xF5 {
+            if depth == 0 {
+                return Err(ZiporaError("nested too deeply"));
+            }
+            return ok_decode(&data[1..], depth - 1);
+        }
+        Ok(data[1] as usize)
+    }
+}
+
+// ---------------------------------------------------------------- R-UNINIT
+pub mod uninitfx {
+    use std::mem::MaybeUninit;
+    pub fn ok_array<const N: usize>(mut next: impl FnMut() -> Option<String>) -> Option<[String; N]> {
+        let mut a: [MaybeUninit<String>; N] = unsafe { MaybeUninit::uninit().assume_init() };
+        for i in 0..N {
+            match next() {
+                Some(v) => a[i] = MaybeUninit::new(v),
+                None => {
+                    for s in &mut a[..i] { unsafe { s.assume_init_drop() } }
+                    return None;
+                }
+            }
+        }
+        Some(unsafe { std::mem::transmute_copy::<_, [String; N]>(&a) })
+    }
+    pub fn bad_array<const N: usize>(mut next: impl FnMut() -> Option<String>) -> Option<[String; N]> {
+        let mut a: [String; N] = unsafe { MaybeUninit::uninit().assume_init() };
+        for slot in a.iter_mut() {
+            unsafe { std::ptr::write(slot, next()?) };
+        }
+        Some(a)
+    }
+}
